@@ -79,6 +79,25 @@ theorem opened_snoc (tv : List String) (h : Hist) (m : Msg) (o : MObs) :
     · exact ⟨p, Or.inl hp, x, hx, hc⟩
     · exact ⟨(m, .seen o), Or.inr rfl, o, rfl, hc⟩
 
+/-- The `InitializedHandler` ran for some `notifications/initialized` of the history (the invocation
+counter's own evidence that the notification was accepted once). -/
+def InitializedRan (h : Hist) : Prop :=
+  ∃ p ∈ h, ∃ o, p.2 = .seen o ∧ p.1.side = .server ∧ p.1.mname = "notifications/initialized" ∧ o.uh = true
+
+theorem initializedRan_snoc (h : Hist) (m : Msg) (o : MObs) :
+    InitializedRan (h ++ [(m, .seen o)]) ↔
+      InitializedRan h ∨ (m.side = .server ∧ m.mname = "notifications/initialized" ∧ o.uh = true) := by
+  simp only [InitializedRan, List.mem_append, List.mem_singleton]
+  constructor
+  · rintro ⟨p, hp | rfl, x, hx, hc⟩
+    · exact Or.inl ⟨p, hp, x, hx, hc⟩
+    · simp only [Obs.seen.injEq] at hx
+      subst hx
+      exact Or.inr hc
+  · rintro (⟨p, hp, x, hx, hc⟩ | hc)
+    · exact ⟨p, Or.inl hp, x, hx, hc⟩
+    · exact ⟨(m, .seen o), Or.inr rfl, o, rfl, hc⟩
+
 theorem monAfter_snoc : ∀ (h : Hist) (mon : Mon) (m : Msg) (o : Obs),
     monAfter mon (h ++ [(m, o)]) = monNext (monAfter mon h) m o
   | [], _, _, _ => rfl
@@ -98,13 +117,16 @@ theorem book (tv : List String) (h : Hist) :
     (monAfter (monStart tv) h).tv = tv ∧
     ((monAfter (monStart tv) h).dead = false ↔ Alive h) ∧
     (Alive h → (monAfter (monStart tv) h).prevSt = prevState h ∧
-      ((monAfter (monStart tv) h).opened = true ↔ Opened tv h)) := by
+      ((monAfter (monStart tv) h).opened = true ↔ Opened tv h) ∧
+      ((monAfter (monStart tv) h).initdRan = true ↔ InitializedRan h)) := by
   refine snoc_induction (P := fun h => (monAfter (monStart tv) h).tv = tv ∧
     ((monAfter (monStart tv) h).dead = false ↔ Alive h) ∧
     (Alive h → (monAfter (monStart tv) h).prevSt = prevState h ∧
-      ((monAfter (monStart tv) h).opened = true ↔ Opened tv h))) ?_ ?_ h
-  · refine ⟨rfl, ⟨fun _ p hp => (by cases hp), fun _ => rfl⟩, fun _ => ⟨rfl, ?_⟩⟩
-    simp [monAfter, monStart, Opened]
+      ((monAfter (monStart tv) h).opened = true ↔ Opened tv h) ∧
+      ((monAfter (monStart tv) h).initdRan = true ↔ InitializedRan h))) ?_ ?_ h
+  · refine ⟨rfl, ⟨fun _ p hp => (by cases hp), fun _ => rfl⟩, fun _ => ⟨rfl, ?_, ?_⟩⟩
+    · simp [monAfter, monStart, Opened]
+    · simp [monAfter, monStart, InitializedRan]
   · rintro h ⟨m, o⟩ ⟨i1, i2, i3⟩
     rw [monAfter_snoc]
     cases o with
@@ -117,19 +139,28 @@ theorem book (tv : List String) (h : Hist) :
         · rintro ⟨ha, _⟩; exact i2.2 ha
       · intro ha
         obtain ⟨ha', _⟩ := (alive_snoc h m _).1 ha
-        obtain ⟨j1, j2⟩ := i3 ha'
-        refine ⟨by simp [monNext, prevState_snoc], ?_⟩
-        rw [opened_snoc]
-        simp only [monNext, Bool.or_eq_true, j2, i1, validMeta, Bool.and_eq_true, beq_iff_eq]
-        constructor
-        · rintro ((h1 | h1) | ⟨⟨h1, h2⟩, h3⟩)
-          · exact Or.inl h1
-          · exact Or.inr (Or.inl h1)
-          · exact Or.inr (Or.inr ⟨h1, h2, h3⟩)
-        · rintro (h1 | h1 | ⟨h1, h2, h3⟩)
-          · exact Or.inl (Or.inl h1)
-          · exact Or.inl (Or.inr h1)
-          · exact Or.inr ⟨⟨h1, h2⟩, h3⟩
+        obtain ⟨j1, j2, j3⟩ := i3 ha'
+        refine ⟨by simp [monNext, prevState_snoc], ?_, ?_⟩
+        · rw [opened_snoc]
+          simp only [monNext, Bool.or_eq_true, j2, i1, validMeta, Bool.and_eq_true, beq_iff_eq]
+          constructor
+          · rintro ((h1 | h1) | ⟨⟨h1, h2⟩, h3⟩)
+            · exact Or.inl h1
+            · exact Or.inr (Or.inl h1)
+            · exact Or.inr (Or.inr ⟨h1, h2, h3⟩)
+          · rintro (h1 | h1 | ⟨h1, h2, h3⟩)
+            · exact Or.inl (Or.inl h1)
+            · exact Or.inl (Or.inr h1)
+            · exact Or.inr ⟨⟨h1, h2⟩, h3⟩
+        · rw [initializedRan_snoc]
+          simp only [monNext, Bool.or_eq_true, j3, Bool.and_eq_true, beq_iff_eq]
+          constructor
+          · rintro (h1 | ⟨⟨h1, h2⟩, h3⟩)
+            · exact Or.inl h1
+            · exact Or.inr ⟨h1, h2, h3⟩
+          · rintro (h1 | ⟨h1, h2, h3⟩)
+            · exact Or.inl h1
+            · exact Or.inr ⟨⟨h1, h2⟩, h3⟩
     | panic =>
       refine ⟨by simpa [monNext] using i1, ?_, ?_⟩
       · rw [alive_snoc]; simp [monNext]
@@ -248,6 +279,12 @@ def P_rejected_initialize_keeps_state (tr : Hist) : Prop :=
 def P_initialized_premature_or_repeated_rejected (tr : Hist) : Prop :=
   ∀ j m o, At tr j m o → m.side = .server → m.mname = "notifications/initialized" →
     (¬ InitSeen tr j ∨ (prevState (tr.take j)).initd = true) → o.uh = false ∧ Unchanged tr j o
+/-- "an initialized notification that is … repeated [is] rejected", read off the invocation counter of the
+`InitializedHandler` alone: once the handler has run for a `notifications/initialized` of the session, it
+does not run for a later one — whatever the implementation's session state claims in between. -/
+def P_initialized_handler_once (tr : Hist) : Prop :=
+  ∀ j m o, At tr j m o → m.side = .server → m.mname = "notifications/initialized" →
+    InitializedRan (tr.take j) → o.uh = false
 /-- "ping is always served". -/
 def P_ping_always_served (tr : Hist) : Prop :=
   ∀ j m o, At tr j m o → Legacy m → m.mname = "ping" → m.req.hasId = true →
@@ -350,6 +387,7 @@ def P_of (tv : List String) : Clause → Hist → Prop
   | .secondInitState => P_second_initialize_keeps_state
   | .rejectedInitState => P_rejected_initialize_keeps_state
   | .initializedAccepted => P_initialized_premature_or_repeated_rejected
+  | .initializedTwice => P_initialized_handler_once
   | .pingNotServed => P_ping_always_served
   | .incompleteMeta => P_incomplete_meta_invalid_params
   | .f34NotRefused => P_transport_version_refused tv
@@ -387,6 +425,7 @@ structure MonAt (tv : List String) (tr : Hist) (j : Nat) (mon : Mon) : Prop wher
   htv : mon.tv = tv
   prev : mon.prevSt = prevState (tr.take j)
   opened : mon.opened = true ↔ Opened tv (tr.take j)
+  ran : mon.initdRan = true ↔ InitializedRan (tr.take j)
 
 /-- What a report at envelope `j` is made of. -/
 inductive Fired (tv : List String) (tr : Hist) (j : Nat) : Clause → Prop
@@ -408,7 +447,7 @@ theorem fires_fired {tv : List String} {tr : Hist} {j : Nat} {cl : Clause} (hf :
     | false => rfl
     | true => simp [monitor, hd] at hm
   have halive := b2.1 hdead
-  obtain ⟨c1, c2⟩ := b3 halive
+  obtain ⟨c1, c2, c3⟩ := b3 halive
   simp only [monitor, hdead, Bool.false_eq_true, if_false] at hm
   cases obs with
   | panic => simp only [Option.some.injEq] at hm; exact .panic m _ halive hj hm.symm
@@ -435,7 +474,7 @@ theorem fires_fired {tv : List String} {tr : Hist} {j : Nat} {cl : Clause} (hf :
         split at h2
         · cases h2
         · rename_i hs
-          exact .c06 m o _ _ hat ⟨b1, c1, c2⟩ (by simpa using hs) (firstRule_some h2)
+          exact .c06 m o _ _ hat ⟨b1, c1, c2, c3⟩ (by simpa using hs) (firstRule_some h2)
       | none =>
         rw [h2] at hm
         simp only at hm
@@ -821,6 +860,19 @@ theorem sound_initializedAccepted (tv : List String) (tr : Hist) (j : Nat) (hf :
     · apply h3; rw [hmon.prev]; exact b
   | code m o want _ hat hw hne hc => simp at hc
 
+theorem sound_initializedTwice (tv : List String) (tr : Hist) (j : Nat) (hf : FiresAt tv tr j .initializedTwice) :
+    ¬ P_initialized_handler_once tr := by
+  intro hP
+  cases fires_fired hf with
+  | panic m _ ha hj hc => exact crashClause_ne hc (by simp) (by simp) (by simp) (by simp) (by simp)
+  | shape m o _ hat hmem => simp [c02ShapeRules] at hmem
+  | c06 m o mon _ hat hmon hside hmem =>
+    simp [c06Rules] at hmem
+    obtain ⟨⟨h1, h2⟩, h3⟩ := hmem
+    have := hP j m o hat hside h1 (hmon.ran.1 h2)
+    rw [this] at h3; cases h3
+  | code m o want _ hat hw hne hc => simp at hc
+
 theorem sound_pingNotServed (tv : List String) (tr : Hist) (j : Nat) (hf : FiresAt tv tr j .pingNotServed) :
     ¬ P_ping_always_served tr := by
   intro hP
@@ -1053,6 +1105,7 @@ theorem monitor_sound (tv : List String) (tr : Hist) (j : Nat) (cl : Clause) (h 
   | secondInitState => exact sound_secondInitState tv tr j hf
   | rejectedInitState => exact sound_rejectedInitState tv tr j hf
   | initializedAccepted => exact sound_initializedAccepted tv tr j hf
+  | initializedTwice => exact sound_initializedTwice tv tr j hf
   | pingNotServed => exact sound_pingNotServed tv tr j hf
   | incompleteMeta => exact sound_incompleteMeta tv tr j hf
   | f34NotRefused => exact sound_f34NotRefused tv tr j hf
@@ -1145,7 +1198,7 @@ theorem silent_at {tv : List String} {tr : Hist} (hs : runMon tv tr = none) {j :
   have hm := runFrom_none tr _ 0 hs j m (.seen o) hat.here
   obtain ⟨b1, b2, b3⟩ := book tv (tr.take j)
   have hdead := b2.2 hat.alive
-  obtain ⟨c1, c2⟩ := b3 hat.alive
+  obtain ⟨c1, c2, c3⟩ := b3 hat.alive
   simp only [monitor, hdead, Bool.false_eq_true, if_false] at hm
   cases h1 : c02Shape m o with
   | some c => rw [h1] at hm; simp [Option.orElse] at hm
@@ -1159,7 +1212,7 @@ theorem silent_at {tv : List String} {tr : Hist} (hs : runMon tv tr = none) {j :
       simp only at hm
       refine ⟨firstRule_none h1, ?_, ?_⟩
       · intro hside
-        refine ⟨_, ⟨b1, c1, c2⟩, ?_⟩
+        refine ⟨_, ⟨b1, c1, c2, c3⟩, ?_⟩
         unfold c06 at h2
         simp only [hside, bne_self_eq_false, Bool.false_eq_true, if_false] at h2
         exact firstRule_none h2
@@ -1301,8 +1354,12 @@ theorem monitor_complete (tv : List String) (tr : Hist) (hs : runMon tv tr = non
     exact r15 hnw.2 hmc hacc hr
   | discoverLegacy =>
     intro j m o hat hl hn
-    obtain ⟨mon, hmon, _, _, _, _, _, _, _, _, _, _, _, _, _, _, _, r16⟩ := c6 hat hl.1
+    obtain ⟨mon, hmon, _, _, _, _, _, _, _, _, _, _, _, _, _, _, _, r16, _⟩ := c6 hat hl.1
     exact r16 hn hl.2
+  | initializedTwice =>
+    intro j m o hat hside hn hran
+    obtain ⟨mon, hmon, _, _, _, _, _, _, _, _, _, _, _, _, _, _, _, _, r17⟩ := c6 hat hside
+    exact r17 hn (hmon.ran.2 hran)
   | f16 want | f17 want | codeWrong want =>
     intro j m o hat w hr
     exact (silent_at hs hat).code w (rule_specWire hr)
